@@ -9,6 +9,7 @@ import pipeline as pl
 import tlc
 import checks_codec as cc
 import checks_extend
+import checks_fuzz
 
 
 def c01(tier, seed):
@@ -31,7 +32,7 @@ def c06(tier, seed):
     return cc.codec_check('C06', tier, seed, ['oer'], ['OER'], ['enc', 'dec'], numerics='0')
 
 
-CHECKS = {'C07': checks_extend.c07, 'C06': c06, 'C05': c05, 'C01': c01, 'C03': c03, 'C16': c16}
+CHECKS = {'C08': checks_fuzz.c08, 'C07': checks_extend.c07, 'C06': c06, 'C05': c05, 'C01': c01, 'C03': c03, 'C16': c16}
 
 
 def setup():
